@@ -1,24 +1,47 @@
 #!/usr/bin/env python3
-"""Merges known_findings.d/*.json into known_findings.json (the single committed known-findings file):
-fixed entries are kept, known entries are replaced by the union of the per-property files."""
+"""Merges known_findings.d/*.json (written by the per-property builders) into known_findings.json, the single
+committed known-findings file.  For a property that has a .d file that file is authoritative: its entries override the
+main file's entries with the same key (a `known` entry that was repaired becomes `fixed`), and `known` entries of the
+main file that the .d file no longer lists are dropped (pruned as false alarms or superseded).  `fixed` entries are
+never dropped.  Run by hand (never by a check); afterwards known_findings.d can be removed."""
 import glob, json, os
 VERIF = os.path.dirname(os.path.dirname(os.path.abspath(__file__)))
 main = os.path.join(VERIF, "known_findings.json")
-cur = json.load(open(main))
-fixed = [e for e in cur if e.get("status") == "fixed"]
-known = {}
-for e in cur:
-    if e.get("status") == "known":
-        known[(e["property"], e["key"])] = e
 d = os.path.join(VERIF, "known_findings.d")
-props_with_file = set()
+
+
+def norm(e):
+    out = dict(property=e["property"], key=e["key"], status=e.get("status", "known"), what=e["what"])
+    if out["status"] == "fixed":
+        out["commit"] = e.get("commit", "")
+        if not out["what"].startswith("fixed:"):
+            out["what"] = "fixed: property=%s %s %s" % (e["property"], out["commit"], out["what"])
+    return out
+
+
+entries, order = {}, []
+for e in json.load(open(main)):
+    k = (e["property"], e["key"])
+    if k not in entries:
+        order.append(k)
+    entries[k] = e if e.get("status") == "fixed" and "commit" in e else norm(e)
+with_file = {}
 for f in sorted(glob.glob(os.path.join(d, "*.json"))):
-    props_with_file.add(os.path.basename(f)[:-5])
+    p = os.path.basename(f)[:-5]
+    with_file[p] = set()
     for e in json.load(open(f)):
-        if e.get("status", "known") == "known":
-            known[(e["property"], e["key"])] = dict(property=e["property"], key=e["key"], status="known", what=e["what"])
-# a property that has a .d file is authoritative for its known entries
-out = [e for (p, k), e in sorted(known.items()) if p not in props_with_file or
-       any(e2["key"] == k for e2 in json.load(open(os.path.join(d, p + ".json"))))]
-json.dump(fixed + out, open(main, "w"), indent=1, ensure_ascii=False)
-print("known_findings.json: %d fixed, %d known" % (len(fixed), len(out)))
+        k = (e["property"], e["key"])
+        with_file[p].add(e["key"])
+        if k not in entries:
+            order.append(k)
+        entries[k] = norm(e)
+keep = []
+for k in order:
+    e = entries[k]
+    if e["status"] == "known" and k[0] in with_file and k[1] not in with_file[k[0]]:
+        continue
+    keep.append(e)
+keep.sort(key=lambda e: (0 if e["status"] == "fixed" else 1))
+json.dump(keep, open(main, "w"), indent=1, ensure_ascii=False)
+print("known_findings.json: %d fixed, %d known" % (sum(e["status"] == "fixed" for e in keep),
+                                                    sum(e["status"] == "known" for e in keep)))
